@@ -624,7 +624,7 @@ func (h *harness) open(r *responders, e entry, id uint64, class string, remote k
 	keymat, oflag := "", false
 	raw := key32{}
 	switch class {
-	case "good":
+	case "good", "good-bit255":
 		if res.outcome != outKeyed {
 			c.Fail("open-failed-"+name, fmt.Sprintf("valid remote key but outcome %d (%s)", res.outcome, res.detail), rp)
 		} else {
@@ -670,7 +670,7 @@ func (h *harness) icmpInitiator(id uint64, class string, remote key32, privB key
 	keymat, oflag := "", false
 	raw := key32{}
 	switch class {
-	case "good":
+	case "good", "good-bit255":
 		if outcome != outKeyed {
 			c.Fail("open-failed-icmp-ingress", fmt.Sprintf("valid remote key but outcome %d (%v)", outcome, err), rp)
 		} else {
@@ -742,8 +742,11 @@ func main() {
 			for _, e := range entries() {
 				if e.kind == rp.Kind && e.fn == rp.Fn {
 					remote, priv := unhex32(rp.Remote), unhex32(rp.Priv)
-					if rp.Class == "good" {
+					if rp.Class == "good" || rp.Class == "good-bit255" {
 						priv, remote, _ = crypto.GenerateEphemeralKeypair()
+						if rp.Class == "good-bit255" {
+							remote[31] |= 0x80
+						}
 					}
 					h.open(r, e, id, rp.Class, remote, priv)
 				}
@@ -751,14 +754,19 @@ func main() {
 			r.close()
 		case "icmp-initiator":
 			remote, priv := unhex32(rp.Remote), unhex32(rp.Priv)
-			if rp.Class == "good" {
+			if rp.Class == "good" || rp.Class == "good-bit255" {
 				priv, remote, _ = crypto.GenerateEphemeralKeypair()
+				if rp.Class == "good-bit255" {
+					remote[31] |= 0x80
+				}
 			}
 			h.icmpInitiator(id, rp.Class, remote, priv)
 		case "agents":
 			runAgents(h, root, true)
-		case "ack-replay":
+		case "ack-replay", "ack-writers":
 			ackReplayKeys(h)
+		case "request-ids":
+			requestIDStorm(h)
 		}
 	} else {
 		ids := []uint64{0, 1, 255, 256, 1<<32 - 1, 1 << 32, 1<<63 - 1, 1 << 63, ^uint64(0) - 1, ^uint64(0)}
@@ -801,9 +809,17 @@ func main() {
 					id = root.PickU64(ids...)
 				}
 				h.open(r, e, id, "good", pub, priv)
+				// the same point with bit 255 of the encoding set (valid per RFC 7748:
+				// X25519 ignores the bit): both ends must salt with the bytes AS SENT
+				priv2, pub2, _ := crypto.GenerateEphemeralKeypair()
+				pub2[31] |= 0x80
+				h.open(r, e, root.PickU64(ids...), "good-bit255", pub2, priv2)
 			}
 			priv, pub, _ := crypto.GenerateEphemeralKeypair()
 			h.icmpInitiator(root.PickU64(ids...), "good", pub, priv)
+			priv2, pub2, _ := crypto.GenerateEphemeralKeypair()
+			pub2[31] |= 0x80
+			h.icmpInitiator(root.PickU64(ids...), "good-bit255", pub2, priv2)
 		}
 		r.close()
 
@@ -849,6 +865,7 @@ func main() {
 		// ---- live agents ----
 		runAgents(h, root, false)
 		ackReplayKeys(h)
+		requestIDStorm(h)
 	}
 
 	var sb strings.Builder
